@@ -55,6 +55,19 @@ def initial_cases(tier, seed):
     for mol, fam in itertools.product(["H2O", "HF"], ["VIJ", "SDMX1", "SL"]):
         for k in range(3):
             cases.append({"kind": "rotation", "mol": mol, "fam": fam, "euler": k, "seed": seed})
+    # fractional-Laplacian (orbital) features are analytic in the Gaussian basis: exact invariance at co-moved points under
+    # ARBITRARY rotations, improper rotations, translations and atom relabelling
+    for mol, cls in itertools.product(["H2O", "HF"], ["FL", "FLd", "FLd2", "FL0"]):
+        for k, refl, perm, trans in itertools.product(range(3), (False, True), (False, True), ("t0", "t1")):
+            if quick and (k + refl + perm + (trans == "t1")) % 2 and mol == "HF":
+                continue
+            cases.append({"kind": "nlof", "mol": mol, "cls": cls, "euler": k, "refl": refl, "perm": perm, "trans": trans, "seed": seed})
+    # SDMX features involve no grid quadrature either (auxiliary-exponent fit of the density matrix around each point)
+    for mol, cls in itertools.product(["H2O", "HOH", "HF"], ["SDMX", "SDMX1", "SDMXG", "SDMXG1", "SDMXFull", "SADM", "SDMXG1-all"]):
+        for k, refl, perm, trans in itertools.product(range(3), (False, True), (False, True), ("t0", "t1")):
+            if quick and ((k + refl + perm + (trans == "t1")) % 2 or mol == "HOH" or (mol == "HF" and cls not in ("SDMX1", "SDMXFull"))):
+                continue
+            cases.append({"kind": "sdmxpt", "mol": mol, "cls": cls, "euler": k, "refl": refl, "perm": perm, "trans": trans, "seed": seed})
     return cases
 
 
@@ -245,7 +258,83 @@ def run_rotation(case):
     return {"fail": fails, "evals": 4, "edges": 1, "outcome": [ck, float("%.3e" % errs[0]), float("%.3e" % errs[1])], "info": {"errs": errs}}
 
 
+class _PointGrid:
+    def __init__(self, mol, coords):
+        self.mol, self.coords, self.weights = mol, np.ascontiguousarray(coords), np.ones(len(coords))
+        self.non0tab, self.cutoff = None, 0
+
+
+def run_nlof(case):
+    from ciderpress.pyscf.descriptors import _fl_desc_getter
+
+    from mc import fixtures as F
+
+    molname, seed = case["mol"], case["seed"]
+    R = _euler(case["euler"])
+    if case["refl"]:
+        R = R @ np.diag([1.0, 1.0, -1.0])
+    t = np.zeros(3) if case["trans"] == "t0" else np.array([0.3, -1.1, 2.2])
+    natm = F.make_mol(molname).natm
+    perm = list(range(natm))[::-1] if case["perm"] else None
+    mol0, mol, U = _transformed(molname, R, perm, t)
+    mol0 = _transformed(molname, np.eye(3), None, np.zeros(3))[1]
+    st = F.nlof_settings(case["cls"])
+    rng = np.random.RandomState(5)
+    coords = mol0.atom_coords()[rng.randint(0, mol0.natm, 14)] + rng.randn(14, 3) * 0.7
+    dm0 = F.make_dm(mol0, "D1", seed)
+    f0 = np.asarray(_fl_desc_getter(mol0, _PointGrid(mol0, coords), dm0, st))
+    f1 = np.asarray(_fl_desc_getter(mol, _PointGrid(mol, coords @ R.T + t), U @ dm0 @ U.T, st))
+    ck = "mol=%s;cls=%s;euler=%d;refl=%s;perm=%s;trans=%s" % (molname, case["cls"], case["euler"], case["refl"], case["perm"], case["trans"])
+    fails = []
+    worst = 0.0
+    for j in range(f0.shape[0]):
+        d = np.abs(f1[j] - f0[j]).max() / (np.abs(f0[j]).max() + 1e-300)
+        worst = max(worst, d)
+        if not d <= 1e-9:
+            fails.append({"key": "nlof-feature-not-invariant;%s;feat=%d" % (ck, j),
+                          "msg": "fractional-Laplacian feature %d at co-moved points changes by %.3e of its scale under a rigid motion / relabelling" % (j, d)})
+    return {"fail": fails, "evals": 2, "edges": 1, "outcome": [ck, [float("%.9e" % x) for x in f0.sum(1)]], "info": {"worst": worst}}
+
+
+def run_sdmxpt(case):
+    from ciderpress.pyscf.sdmx import PySCFSDMXInitializer
+
+    from mc import fixtures as F
+
+    molname, seed = case["mol"], case["seed"]
+    R = _euler(case["euler"])
+    if case["refl"]:
+        R = R @ np.diag([1.0, 1.0, -1.0])
+    t = np.zeros(3) if case["trans"] == "t0" else np.array([0.3, -1.1, 2.2])
+    natm = F.make_mol(molname).natm
+    perm = list(range(natm))[::-1] if case["perm"] else None
+    mol0, mol, U = _transformed(molname, R, perm, t)
+    mol0 = _transformed(molname, np.eye(3), None, np.zeros(3))[1]
+    st = F.sdmx_settings(case["cls"])
+    rng = np.random.RandomState(5)
+    coords = np.ascontiguousarray(mol0.atom_coords()[rng.randint(0, mol0.natm, 14)] + rng.randn(14, 3) * 0.7)
+    dm0 = F.make_dm(mol0, "D1", seed)
+    g0 = PySCFSDMXInitializer(st, lowmem=False).initialize_sdmx_generator(mol0, 1)
+    g1 = PySCFSDMXInitializer(st, lowmem=False).initialize_sdmx_generator(mol, 1)
+    f0 = np.asarray(g0.get_features(dm0, mol0, coords))
+    f1 = np.asarray(g1.get_features(U @ dm0 @ U.T, mol, np.ascontiguousarray(coords @ R.T + t)))
+    ck = "mol=%s;cls=%s;euler=%d;refl=%s;perm=%s;trans=%s" % (molname, case["cls"], case["euler"], case["refl"], case["perm"], case["trans"])
+    fails = []
+    worst = 0.0
+    for j in range(f0.shape[0]):
+        d = np.abs(f1[j] - f0[j]).max() / (np.abs(f0[j]).max() + 1e-300)
+        worst = max(worst, d)
+        if not d <= 1e-9:
+            fails.append({"key": "sdmx-feature-not-invariant;%s;feat=%d" % (ck, j),
+                          "msg": "SDMX feature %d at co-moved points changes by %.3e of its scale under a rigid motion / relabelling" % (j, d)})
+    return {"fail": fails, "evals": 2, "edges": 1, "outcome": [ck, [float("%.9e" % x) for x in f0.sum(1)]], "info": {"worst": worst}}
+
+
 def run_case(case):
+    if case["kind"] == "sdmxpt":
+        return run_sdmxpt(case)
+    if case["kind"] == "nlof":
+        return run_nlof(case)
     if case["kind"] == "orbit":
         return run_orbit(case)
     return run_rotation(case)
